@@ -28,6 +28,10 @@ type PoolPhase struct {
 	// at-most-once and the Stop ordering rules are checked for this phase's jobs).
 	StopDuring bool `json:"stop_during,omitempty"`
 	StopAfter  bool `json:"stop_after,omitempty"` // Stop after the phase was checked, Run again before the next
+	// CtxFirst (with StopDuring, in programs whose Runs have contexts of their own): the context this
+	// life was run with ends first, then Stop is called - the order of a server that stops on a
+	// signal; Stop must still wait for whatever is in flight
+	CtxFirst bool `json:"ctx_first,omitempty"`
 }
 
 type PoolCase struct {
@@ -124,7 +128,7 @@ func init() { Register(propC16{}) }
 func (propC16) ID() string    { return "C16" }
 func (propC16) Level() string { return "exploration" }
 func (propC16) Rule() string {
-	return "cases: seeded pool programs (1-3 workers, 2-4 concurrent senders, quick and gate-blocked jobs, Stop/Run cycles (half of the programs: every Run with a context of its own, the contexts of earlier lives ending during later ones), Stop racing with senders, arbitrary Run/Stop/Send orders) x seeded schedule (uniform/PCT); distinct = hash(program, context-switch trace); non-trivial = at least one Send timed out into the deferred list, or a Stop overlapped a Send or a running job, or (any-order mode) two lifecycle calls overlapped"
+	return "cases: seeded pool programs (1-3 workers, 2-4 concurrent senders, quick and gate-blocked jobs, Stop/Run cycles (half of the programs: every Run with a context of its own, the contexts of earlier lives ending during later ones, and the context of the current life ending right before a Stop that races with the senders), Stop racing with senders, arbitrary Run/Stop/Send orders) x seeded schedule (uniform/PCT); distinct = hash(program, context-switch trace); non-trivial = at least one Send timed out into the deferred list, or a Stop overlapped a Send or a running job, or (any-order mode) two lifecycle calls overlapped"
 }
 func (propC16) Assumptions() []string {
 	return []string{
@@ -196,6 +200,7 @@ func (propC16) Gen(r *simrt.Rand, idx int, tier string) any {
 			ph.Senders = append(ph.Senders, acts)
 		}
 		ph.StopDuring = r.Intn(6) == 0
+		ph.CtxFirst = ph.StopDuring && r.Intn(2) == 0
 		ph.StopAfter = p < nph-1 || r.Intn(2) == 0
 		c.Phases = append(c.Phases, ph)
 	}
@@ -303,9 +308,10 @@ func (propC16) Exec(x any, choices []int32) RunOut {
 	c := x.(PoolCase)
 	w := &poolWorld{}
 	var (
-		nontrivial  bool
-		timerInSend uint64
-		oldCtxEnded uint64
+		nontrivial       bool
+		timerInSend      uint64
+		oldCtxEnded      uint64
+		runCtxEndedFirst uint64
 	)
 	res := simrt.Run(c.Sched.config(choices), func() {
 		pool := wpool.New(wpool.Options{NumWorkers: c.NumWorkers, SendDuration: time.Duration(c.SendDurNs)})
@@ -436,6 +442,10 @@ func (propC16) Exec(x any, choices []int32) RunOut {
 					if busy {
 						nontrivial = true
 					}
+					if ph.CtxFirst && len(cancels) > 0 {
+						cancels[len(cancels)-1]()
+						runCtxEndedFirst++
+					}
 					w.stopCall = append(w.stopCall, simrt.Step())
 					pool.Stop()
 					w.stopRet = append(w.stopRet, simrt.Step())
@@ -510,6 +520,9 @@ func (propC16) Exec(x any, choices []int32) RunOut {
 	out.CaseHash = h.Sum64() ^ res.SwitchHash
 	out.Sample, _ = json.Marshal(map[string]any{"case": c, "steps": res.Steps, "switches": res.Switches, "jobs": len(w.jobs)})
 	out.Probes = map[string]uint64{}
+	if runCtxEndedFirst > 0 {
+		out.Probes["run-context-ended-before-stop-was-called"] = runCtxEndedFirst
+	}
 	if oldCtxEnded > 0 {
 		out.Probes["context-of-an-earlier-life-ended-during-a-later-one"] = oldCtxEnded
 	}
